@@ -2,6 +2,7 @@ package main
 
 import (
 	"fmt"
+	"go/ast"
 	"go/token"
 	"sort"
 	"strings"
@@ -489,6 +490,70 @@ func checkEngineParsing(c *Ctx, r *Report, cl map[string]string) {
 			}
 			o := r.add(cl["c"], "tpl-types", en+":MethodParameterList", en+": arguments are passed in FuncParams (signature) order: context params get the request context, by-address params the pointer, others the dereferenced value", []string{mp.File}, sites, viol)
 			o.NonTrivial = true
+		}
+
+		// the body is decoded as the route declares it: bindAndValidateBody dispatches on the
+		// content type it is given, not on what the request's header says (a client that adds
+		// `; charset=utf-8`, or sends another type, must not change whether a valid body is bound)
+		if fd := eng.Partials["FunctionDeclarations"]; fd != nil {
+			viol := ""
+			var sites []string
+			gp, err := parseGoPartial(fd)
+			if err != nil {
+				r.undecided(cl["b"], "tplgo", en+":bindAndValidateBody", "", err.Error())
+			} else if fn := gp.fn("bindAndValidateBody"); fn == nil {
+				r.add(cl["b"], "tplgo", en+":bindAndValidateBody:declared-content-type", "", nil, []string{fd.File + ":1"}, "func bindAndValidateBody not found in function.declarations")
+			} else {
+				// the string parameter that carries the declared content type
+				strParams := map[string]bool{}
+				for _, p := range fn.Type.Params.List {
+					if exprString(p.Type) == "string" {
+						for _, nm := range p.Names {
+							strParams[nm.Name] = true
+						}
+					}
+				}
+				reassigned := map[string]bool{}
+				ast.Inspect(fn.Body, func(n ast.Node) bool {
+					if as, ok := n.(*ast.AssignStmt); ok {
+						for _, l := range as.Lhs {
+							if id, ok := l.(*ast.Ident); ok && strParams[id.Name] && as.Tok != token.DEFINE {
+								reassigned[id.Name] = true
+							}
+						}
+					}
+					return true
+				})
+				found := false
+				ast.Inspect(fn.Body, func(n ast.Node) bool {
+					sw, ok := n.(*ast.SwitchStmt)
+					if !ok || sw.Tag == nil {
+						return true
+					}
+					isCT := false
+					ast.Inspect(sw.Body, func(m ast.Node) bool {
+						if bl, ok := m.(*ast.BasicLit); ok && bl.Value == `"application/json"` {
+							isCT = true
+						}
+						return true
+					})
+					if !isCT {
+						return true
+					}
+					found = true
+					sites = append(sites, gp.site(sw.Pos()))
+					id, ok := stripParens(sw.Tag).(*ast.Ident)
+					if !ok || !strParams[id.Name] || reassigned[id.Name] {
+						viol = fmt.Sprintf("%s: bindAndValidateBody chooses the decoder by %s, not by the content type the route declares (its string parameter, unmodified): what the client writes in its Content-Type header decides whether a valid body is bound or refused with 422", gp.site(sw.Pos()), exprString(sw.Tag))
+					}
+					return true
+				})
+				if !found {
+					viol = "no content-type switch with an \"application/json\" case in bindAndValidateBody"
+					sites = []string{gp.site(fn.Pos())}
+				}
+				r.add(cl["b"], "tplgo", en+":bindAndValidateBody:declared-content-type", en+": the body is decoded according to the route's declared content type", []string{fd.File}, sites, viol)
+			}
 		}
 
 		// C05.d failure answers 422 and stops
